@@ -322,4 +322,144 @@ func udistReplay(in io.Reader, raw bool, args []string) (*Summary, error) {
 	return sum, err
 }
 
-func mwRecord(out io.Writer, args []string) error { return errors.New("mw recorder not built yet") }
+type mwEvent struct {
+	Op     string  `json:"op"`
+	E      int     `json:"e"`
+	T      int     `json:"t"`
+	X1     []int64 `json:"x1"`
+	X2     []int64 `json:"x2"`
+	Alt    int     `json:"alt"`
+	RAlt   int     `json:"ralt"`
+	Err    string  `json:"err"`
+	N1     int     `json:"n1"`
+	N2     int     `json:"n2"`
+	TwoU   int64   `json:"twoU"`
+	P      sbig    `json:"p"`
+	ArgsOK int     `json:"argsok"`
+	Seed   int64   `json:"seed"`
+	Idx    int     `json:"idx"`
+}
+
+func p18(p float64) sbig {
+	if math.IsNaN(p) || math.IsInf(p, 0) {
+		return sbig{-1, []int{9999}} // never in range
+	}
+	f := new(big.Float).SetPrec(200).SetFloat64(p)
+	f.Mul(f, new(big.Float).SetPrec(200).SetFloat64(1e18))
+	f.Add(f, new(big.Float).SetFloat64(math.Copysign(0.5, p)))
+	bi, _ := f.Int(nil)
+	s := bi.Sign()
+	bi.Abs(bi)
+	return sbig{s, limbs(bi)}
+}
+
+func mwCall(ev *mwEvent, x1, x2 []int64, f func(int64) float64, alt int, rng *rand.Rand) {
+	a, b := make([]float64, len(x1)), make([]float64, len(x2))
+	for i, v := range x1 {
+		a[i] = f(v)
+	}
+	for i, v := range x2 {
+		b[i] = f(v)
+	}
+	if rng != nil {
+		rng.Shuffle(len(a), func(i, j int) { a[i], a[j] = a[j], a[i] })
+		rng.Shuffle(len(b), func(i, j int) { b[i], b[j] = b[j], b[i] })
+	}
+	sa, sb := append([]float64{}, a...), append([]float64{}, b...)
+	res, err := stats.MannWhitneyUTest(a, b, stats.LocationHypothesis(alt))
+	ev.X1, ev.X2, ev.Alt = x1, x2, alt
+	ev.P = sbig{0, []int{}}
+	if bitsEqual(a, sa) && bitsEqual(b, sb) {
+		ev.ArgsOK = 1
+	}
+	switch {
+	case errors.Is(err, stats.ErrSampleSize):
+		ev.Err = "size"
+	case errors.Is(err, stats.ErrSamplesEqual):
+		ev.Err = "equal"
+	case err != nil || res == nil:
+		ev.Err = "other"
+	default:
+		ev.Err = "none"
+		ev.N1, ev.N2, ev.RAlt = res.N1, res.N2, int(res.AltHypothesis)
+		ev.TwoU = int64(math.Round(res.U * 2))
+		if float64(ev.TwoU) != res.U*2 {
+			ev.TwoU = -1 // U is not a half-integer: no action explains it
+		}
+		ev.P = p18(res.P)
+	}
+}
+
+func mwRecord(out io.Writer, args []string) error {
+	rf := newRecFlags("mw", 40)
+	maxSize := rf.fs.Int("max", 60, "largest sample size")
+	calls := rf.fs.Int("calls", 6, "base calls per history")
+	rf.fs.Parse(args)
+	enc := json.NewEncoder(out)
+	saveE, saveT := stats.MannWhitneyExactLimit, stats.MannWhitneyTiesExactLimit
+	defer func() { stats.MannWhitneyExactLimit, stats.MannWhitneyTiesExactLimit = saveE, saveT }()
+	limitCfgs := [][2]int{{50, 25}, {0, 0}, {3, 2}, {1000, 1000}, {8, 8}, {5, 12}}
+	for idx := 0; idx < *rf.n; idx++ {
+		if !rf.mine(idx) {
+			continue
+		}
+		rng := rand.New(rand.NewSource(*rf.seed*1000003 + int64(idx)))
+		stats.MannWhitneyExactLimit, stats.MannWhitneyTiesExactLimit = 50, 25
+		enc.Encode(mwEvent{Op: "Reset", Seed: *rf.seed, Idx: idx, P: sbig{0, []int{}}, X1: []int64{}, X2: []int64{}})
+		for k := 0; k < *calls; k++ {
+			if rng.Intn(3) == 0 {
+				c := limitCfgs[rng.Intn(len(limitCfgs))]
+				stats.MannWhitneyExactLimit, stats.MannWhitneyTiesExactLimit = c[0], c[1]
+				enc.Encode(mwEvent{Op: "SetLimits", E: c[0], T: c[1], Seed: *rf.seed, Idx: idx, P: sbig{0, []int{}}, X1: []int64{}, X2: []int64{}})
+			}
+			// sizes: mostly small (exactly checkable), sometimes around the limits, sometimes large
+			var n1, n2 int
+			switch r := rng.Intn(10); {
+			case r < 5:
+				n1, n2 = rng.Intn(8), rng.Intn(8)
+			case r < 8:
+				n1, n2 = 1+rng.Intn(14), 1+rng.Intn(14)
+			default:
+				n1, n2 = 1+rng.Intn(*maxSize), 1+rng.Intn(*maxSize)
+			}
+			var span int64
+			switch rng.Intn(4) {
+			case 0:
+				span = 3 // heavy ties
+			case 1:
+				span = int64(n1+n2)/2 + 1
+			case 2:
+				span = 1000000 // essentially untied
+			default:
+				span = 1 // all equal
+				if rng.Intn(3) > 0 {
+					span = 2
+				}
+			}
+			x1, x2 := make([]int64, n1), make([]int64, n2)
+			for i := range x1 {
+				x1[i] = rng.Int63n(span) - span/2
+			}
+			for i := range x2 {
+				x2[i] = rng.Int63n(span) - span/2 + int64(rng.Intn(2))
+			}
+			alt := rng.Intn(3) - 1
+			ev := mwEvent{Op: "Test", Seed: *rf.seed, Idx: idx}
+			mwCall(&ev, x1, x2, func(v int64) float64 { return float64(v) }, alt, nil)
+			enc.Encode(ev)
+			if ev.Err != "none" {
+				continue
+			}
+			tw := mwEvent{Op: "TwinSame", Seed: *rf.seed, Idx: idx}
+			mwCall(&tw, x1, x2, func(v int64) float64 { return math.Exp(float64(v)/1e6)*3 - 7 }, alt, rng)
+			if span < 1000 {
+				mwCall(&tw, x1, x2, func(v int64) float64 { return float64(v*v*v) + 0.5 }, alt, rng)
+			}
+			enc.Encode(tw)
+			sw := mwEvent{Op: "TwinSwap", Seed: *rf.seed, Idx: idx}
+			mwCall(&sw, x2, x1, func(v int64) float64 { return float64(v) }, -alt, rng)
+			enc.Encode(sw)
+		}
+	}
+	return nil
+}
